@@ -137,6 +137,7 @@ func runC06(c *Ctx) {
 	dc := dlr + "close"
 	ruleTimersStoppedOnRemoval(c, r2)
 	ruleOneTimerPerCall(c, r2)
+	ruleFailCall(c, r2) // a call the dealer fails itself stops its timer too (else dealer.close waits for it)
 	c.Before(r2, dc, "pending call timers cancelled before the close", `^send:%d\.actionChan<-closure:router\.\(\*dealer\)\.close\$1$`, `^call:builtin:close\(%d\.actionChan\)$`)
 	c.Before(r2, dc, "timer goroutines joined before the close", `^call:\(\*sync\.WaitGroup\)\.Wait\(%d\.&timers\)$`, `^call:builtin:close\(%d\.actionChan\)$`)
 	c.Before(r2, dc, "timers cancelled before waiting for them", `^send:%d\.actionChan<-`, `^call:\(\*sync\.WaitGroup\)\.Wait\(%d\.&timers\)$`)
@@ -204,6 +205,7 @@ func runC06(c *Ctx) {
 
 	const r7 = "C06.R7 stopping the meta session does not depend on a message getting through"
 	ruleMetaShutdownJoin(c, r7)
+	ruleCompletionSignalled(c, r7)
 	c.R.Floor(r7, 7)
 
 	const r3 = "C06.R3 ordered realm shutdown"
